@@ -159,6 +159,8 @@ class RunCtx:
         }
         if self.opts.get("transcript"):
             res["transcript"] = w.transcript
+        if self.opts.get("return_log"):
+            res["log"] = env.log.items
         if extra:
             res.update(extra)
         return res
